@@ -65,6 +65,11 @@ CHECKS = {
    text="Every transition of the reduced-bound C02..C10 explorations (models generate only operations whose documented preconditions hold) is executed with the update, every accessor and the oracle inside catch_unwind, once in the release build and once in the chk build (debug assertions and arithmetic overflow checks on); any panic originating in datasketches is a violation with the op list as replay. Added extremes: HLL lg_k 4 and 21 x 3 types through every promotion with an Hll4 cur_min shift while the aux map is populated; CPC lg_k 4 (whole life, crafted pairs), 21 and 22 (hashed items through Sparse/Hybrid/Pinned, serialize+deserialize at each flavor change; thorough adds 12, 23, 26); the hook-less families at their minimum configurations.",
    note="Panics provoked by violating a documented precondition are excluded by construction of the models (coupon values 1..=63, CPC coupon cap, counter totals within range).",
    design="3/C17"),
+ "C18": dict(
+   technique="size-formula observer on the family explorers (every visited state) + exhaustive measurement grid along long hashed streams",
+   text="In every state of the reduced-bound C02/C04/C07/C08/C09 explorations the image length must equal the formula its mode and configuration dictate (HLL 8+4c / 12+4c / 40+{k/2,3k/4+1,k}+4*aux with c and aux from the hook dump; theta <= 15/16*2k retained, image = 8*(preLongs+n), v4 <= v3; Bloom and Count-Min fixed by configuration; Frequent Items num_active <= maximum_map_capacity). Long runs: 4 hashed streams (distinct, 16 repeated, ascending theta hash, ascending HLL value) of 2^18 (2^22) items through the public update, HLL lg_k {4,8,12,(21)} x 3 types and theta lg_k {5,8,12} (incl. trim <= k) measured at every power-of-two prefix; CPC lg_k 4..12(14) x 4 seeds at every 1/8-octave prefix: exceedances of max_serialized_bytes are counted and must stay <= 0.1%.",
+   note="The CPC clause is probabilistic: decided only as a complete count over the stated hashed-stream grid. t-digest size is C15.",
+   design="3/C18"),
 }
 NOT_BUILT = "check not built yet in this session (planned in DESIGN.md section 3); not claimed until it exists"
 def main():
